@@ -143,6 +143,23 @@ def run(ctx):
     # the returned tuple's mask is the accumulator; initial value is u32::MAX
     init = [s for pos, s in cw.iter_stmts() if s['k'] == 'assign' and s['dst']['l'] in ovl and s['rv']['k'] == 'use' and s['rv']['o'].get('i') == '4294967295']
     C.check(len(init) == 1, 'C17-SIB-mask', 'accumulator-starts-at-all-versions', 'the mask accumulator does not start at u32::MAX')
+    # every attribute is judged: an attribute that the target-version type does not know at all is reported too
+    fa = [p_ for p_ in calls(cw, r'ElementType::find_attribute_spec$') if any(p_[0] in body for h, body in cw.natural_loops())]
+    oku = False
+    from flow import switch_edges_on_call_result
+    for p_ in fa:
+        sw = switch_edges_on_call_result(cw, p_)
+        if not sw:
+            continue
+        none_t = sw[1].get('0', sw[2])
+        loops_ = [(h, body) for h, body in cw.natural_loops() if p_[0] in body]
+        h, body = min(loops_, key=lambda x: len(x[1]))
+        back = [(bi, cw.nstmts(bi)) for bi in body if h in cw.succs(bi)]
+        pushes = [q for q, t in cw.iter_calls() if call_matches(t, r'Vec::<T, A>::push$') and q[0] in body]
+        if back and pushes and must_pass(cw, (none_t, 0), back, through=set(pushes)):
+            oku = True
+    C.check(oku, 'C17-SIB-columns', 'walk|unknown-attribute-is-reported', 'an attribute that the element type of the target version does not know at all (find_attribute_spec returns None) is skipped by the compatibility walk: set_version succeeds and the strict parser then rejects the file with an unknown-attribute error',
+            '%s:%d' % (cw.file, cw.line), sample={'fn': 'check_version_compatibility', 'none_edge': 'push(IncompatibleAttribute)'})
     # the version a file is written with is the version stored in the file: serialize() rewrites the schema location of the root
     # from ArxmlFileRaw.version on EVERY path before the text is produced (set_version() itself only stores the version)
     C.rule('C17-MUST-header', 'ArxmlFile::serialize calls AutosarModelRaw::set_version(self.version) on every path before Element::serialize_internal: after a successful set_version() the serialized header always names the new version (no conditional / try-lock around the update)')
